@@ -227,6 +227,7 @@ class SimFS:
         self.read_buffer_size = io.DEFAULT_BUFFER_SIZE
         self.open_counts = {}
         self.events = []  # ("create"|"overwrite"|"rename"|"truncate", ...)
+        self.inject = {}  # one-shot directory-level faults: {"rename": errno name, "open_w": errno name}
 
     # -- helpers ---------------------------------------------------------------------------
     @staticmethod
@@ -307,6 +308,11 @@ class SimFS:
 
     def rename(self, src, dst):
         src, dst = self.norm(src), self.norm(dst)
+        if self.inject.get("rename"):
+            code = getattr(_errno, self.inject.pop("rename"))
+            self.world.fault("rename_error")
+            self.world.log("fs", "rename", src[len(ROOT):], "-> OSError (injected)")
+            raise OSError(code, _os.strerror(code) + " (injected)", src)
         if src in self.dirs:
             if dst == src:
                 return
@@ -376,6 +382,11 @@ class SimFS:
         n_open = self.open_counts.get((path, creating), 0)
         self.open_counts[(path, creating)] = n_open + 1
         plan = None
+        if creating and self.inject.get("open_w"):
+            code = getattr(_errno, self.inject.pop("open_w"))
+            self.world.fault("open_error")
+            self.world.log("fs", "open", path[len(ROOT):], "-> OSError (injected)")
+            raise OSError(code, _os.strerror(code) + " (injected)", path)
         if creating:
             if "x" in mode and path in self.files:
                 raise FileExistsError(_errno.EEXIST, "File exists", path)
